@@ -6,6 +6,7 @@ the frame reader with an explicit allocation counter) and RqModel/Model/Wire.lea
 (per-command statement IR regenerated from cluster/service.go handleConn).
 -/
 import RqModel.Model.Frame
+import RqModel.Lemmas.Frame
 import RqModel.Lemmas.Wire
 import RqModel.Props.C18
 namespace C35
@@ -115,6 +116,63 @@ theorem received_le_sent (cfg : Cfg) (bs : List Nat) :
     simp only [List.length_cons]
     omega
 
+/-! ### well-formed frames are delivered exactly -/
+
+/-- ∀ list of payloads (each of a length the prefix can express and the reader
+accepts): feeding the concatenation of their frames to the incremental reader hands
+exactly those payloads, in order, to the decoder, and leaves the reader at a frame
+boundary holding no buffer. -/
+theorem frames_roundtrip (cfg : Cfg) (hinc : cfg.eager = false) (h8 : cfg.lenSize = 8)
+    (ps : List (List Nat)) (hps : ∀ p ∈ ps, p.length ≤ cfg.maxLen ∧ p.length < 256 ^ 8) :
+    ∀ st : RState, st.phase = .header [] → st.cap = 0 →
+      (feedAll cfg st (ps.flatMap encode)).frames = st.frames ++ ps ∧
+      (feedAll cfg st (ps.flatMap encode)).phase = .header [] ∧
+      (feedAll cfg st (ps.flatMap encode)).cap = 0 := by
+  induction ps with
+  | nil => intro st hp hc; simp [feedAll, hp, hc]
+  | cons p ps ih =>
+    intro st hp hc
+    have hp1 := hps p (by simp)
+    have ih' := ih (fun q hq => hps q (by simp [hq]))
+    have hflat : (p :: ps).flatMap encode = leBytes 8 p.length ++ (p ++ ps.flatMap encode) := by
+      simp [encode, List.flatMap_cons]
+    rw [hflat, feedAll_append, feedAll_append]
+    have hhdr := feed_header cfg (leBytes 8 p.length) st [] hp
+      (by intro h; have := congrArg List.length h; simp [leBytes_length] at this)
+      (by simp [leBytes_length, h8])
+    simp only [List.nil_append, leBytes_length, leValue_leBytes 8 p.length hp1.2] at hhdr
+    rw [hhdr]
+    unfold startPayload
+    simp only [hinc, Bool.false_eq_true, if_false]
+    have hnot : ¬ p.length > cfg.maxLen := by omega
+    simp only [hnot, if_false]
+    by_cases h0 : p.length = 0
+    · have hpnil : p = [] := List.eq_nil_of_length_eq_zero h0
+      subst hpnil
+      simp only [List.length_nil, if_true, feedAll, List.foldl_nil]
+      have := ih' (deliver { st with received := st.received + 8 } []) rfl rfl
+      simp only [feedAll, deliver] at this ⊢
+      obtain ⟨h1, h2, h3⟩ := this
+      exact ⟨by rw [h1]; simp, h2, h3⟩
+    · simp only [h0, if_false]
+      have hpne : p ≠ [] := fun h => h0 (by simp [h])
+      obtain ⟨q1, q2, q3, _⟩ := feed_payload cfg p
+        { st with received := st.received + 8, phase := .payload p.length [], cap := cfg.initCap }
+        p.length [] rfl hpne (by simp)
+      obtain ⟨h1, h2, h3⟩ := ih' _ q1 q3
+      refine ⟨?_, h2, h3⟩
+      rw [h1, q2]
+      simp
+
+/-- from a fresh connection, with the default incremental configuration -/
+theorem frames_roundtrip_fresh (ps : List (List Nat)) (hps : ∀ p ∈ ps, p.length < 2 ^ 63) :
+    (feedAll { eager := false } {} (ps.flatMap encode)).frames = ps ∧
+    (feedAll { eager := false } {} (ps.flatMap encode)).phase = .header [] := by
+  have h := frames_roundtrip { eager := false } rfl rfl ps
+    (fun p hp => ⟨by have := hps p hp; show p.length ≤ 2 ^ 63 - 1; omega,
+                  by have := hps p hp; omega⟩) {} rfl rfl
+  exact ⟨by simpa using h.1, h.2.1⟩
+
 /-- fact obligation: the source reads the payload with the incremental strategy
 (the statement that creates the buffer handed to pb.Unmarshal), so `eager = false`
 is the configuration that models it; the length prefix is 8 bytes. -/
@@ -183,5 +241,56 @@ theorem no_state_change_without_perm
     (hden : Wire.authorised (Wire.envOf store u p payloadNil voter oq) req = false) :
     Wire.refusedOK (Wire.runCmd (Wire.envOf store u p payloadNil voter oq) c.body) = true :=
   C18.cluster_no_action_no_data_when_denied c hc req hreq store u p payloadNil voter oq hden
+
+/-! ### no state change when no permission check passes
+
+`no_state_change_without_perm` above is relative to the expectation table, which
+declares HIGHWATER_MARK_UPDATE public because rqlite defines no permission for it.
+Read literally, the property also demands that a caller for whom NO permission check
+passes cannot change the node's state at all. That statement is false of the code:
+the highwater-mark update is delivered to the CDC service (which then deletes queued
+change events up to the given mark) without any check. It is kept visible here,
+proved under the exclusion of that one command, and refuted at a concrete input. -/
+
+/-- full statement: whatever the command, if every permission check fails, nothing is changed -/
+def no_unauthenticated_state_change_full : Prop :=
+  ∀ c ∈ Gen.ClusterCmds.cmds, ∀ env : Wire.Env, (∀ p, env (.perm p) = false) →
+    Wire.noMutation (Wire.runCmd env c.body) = true
+
+theorem partial_cases_checked :
+    Gen.ClusterCmds.cmds.all (fun c => c.name == "HIGHWATER_MARK_UPDATE" || Wire.checkNoPermNoMutation c.body) = true := by
+  decide +kernel
+
+/-- ∀ command case other than HIGHWATER_MARK_UPDATE, ∀ payload, ∀ outcomes of the
+other conditions: when every permission check fails, no state-changing action runs,
+nothing is streamed and nothing crashes. -/
+theorem no_unauthenticated_state_change_partial (c : Gen.ClusterCmds.Cmd) (hc : c ∈ Gen.ClusterCmds.cmds)
+    (hx : c.name ≠ "HIGHWATER_MARK_UPDATE") (env : Wire.Env) (h : ∀ p, env (.perm p) = false) :
+    Wire.noMutation (Wire.runCmd env c.body) = true := by
+  have hall := partial_cases_checked
+  rw [List.all_eq_true] at hall
+  have := hall c hc
+  simp only [Bool.or_eq_true, beq_iff_eq] at this
+  rcases this with h1 | h1
+  · exact absurd h1 hx
+  · exact Wire.checkNoPermNoMutation_sound c.body h1 env h
+
+/-- witness: a highwater-mark update with a payload, no credentials accepted for
+anything, the update channel registered and not full: the value is sent to the CDC
+service. -/
+theorem no_unauthenticated_state_change_witness : ¬ no_unauthenticated_state_change_full := by
+  intro hfull
+  have hmem : (Wire.findCmd "HIGHWATER_MARK_UPDATE").isSome = true := by decide +kernel
+  match hf : Wire.findCmd "HIGHWATER_MARK_UPDATE", hmem with
+  | some c, _ =>
+    have hc : c ∈ Gen.ClusterCmds.cmds := List.mem_of_find?_eq_some hf
+    let env : Wire.Env := fun a => match a with | .other _ => true | _ => false
+    have := hfull c hc env (fun p => rfl)
+    have hw : (Wire.findCmd "HIGHWATER_MARK_UPDATE").map (fun c => Wire.noMutation (Wire.runCmd env c.body)) = some false := by
+      decide +kernel
+    rw [hf] at hw
+    simp only [Option.map_some, Option.some.injEq] at hw
+    rw [this] at hw
+    exact absurd hw (by decide)
 
 end C35
